@@ -185,7 +185,7 @@ def shard_trace(trace_path, d, nshards):
     nlines = 0
     with open(trace_path) as f:
         for line in f:
-            if line.startswith('{"op":{"id"') or '"op":"reset"' in line[:80]:
+            if line.startswith('{"op":{"defdec"') or line.startswith('{"op":{"id"') or '"op":"reset"' in line[:80]:
                 if cur is None or cur_size >= target:
                     if cur:
                         cur.close()
@@ -240,7 +240,11 @@ def validate(trace_path, d, module="TabularTrace", nshards=None, timeout=1800):
     nshards = nshards or NCPU
     size = os.path.getsize(trace_path)
     nshards = max(1, min(nshards, size // 200000 + 1))
-    paths, nlines = shard_trace(trace_path, d, nshards)
+    single = nshards == 1
+    if single:
+        paths, nlines = [trace_path], sum(1 for _ in open(trace_path))
+    else:
+        paths, nlines = shard_trace(trace_path, d, nshards)
     recs = []
     total = 0
     with concurrent.futures.ThreadPoolExecutor(max_workers=len(paths)) as ex:
@@ -251,8 +255,9 @@ def validate(trace_path, d, module="TabularTrace", nshards=None, timeout=1800):
             total += r["lines"]
     if total != nlines:
         raise Infra("validated %d of %d trace lines" % (total, nlines))
-    for p in paths:
-        os.remove(p)
+    if not single:
+        for p in paths:
+            os.remove(p)
     return recs, nlines
 
 
